@@ -72,3 +72,10 @@ def call_catch(interp, fv, args=(), kwargs=None):
 
 def T(b):
     return z3.BoolVal(b) if isinstance(b, bool) else b
+
+
+def param(env, index):
+    """value of the index-th declared parameter of the current function (0 = first, incl. self)"""
+    a = env.func.node.args
+    names = [p.arg for p in a.posonlyargs + a.args + a.kwonlyargs]
+    return env.lookup(names[index])
